@@ -90,6 +90,7 @@ class World:
         os.chdir(self.work)
         import tempfile
         tempfile.tempdir = None
+        tempfile.gettempdir()   # probe the default directory now, outside any simulated seam
 
     def git(self, *argv, cwd=None, check=True, input=None, env_extra=None):
         """Harness-side git (never through the simulated seams)."""
